@@ -175,3 +175,71 @@ func PhiOrBad(x int, t *T) {
 		sink(x)
 	}
 }
+
+// unexported helpers are seen through by summary
+func syncAll(x int) error {
+	if err := verify(x); err != nil {
+		return err
+	}
+	return nil
+}
+func HelperErrGood(x int) int {
+	if err := syncAll(x); err != nil {
+		return 0
+	}
+	sink(x)
+	return 1
+}
+func syncSome(x int) error {
+	if x > 10 {
+		return nil
+	}
+	if err := verify(x); err != nil {
+		return err
+	}
+	return nil
+}
+func HelperErrBad(x int) int {
+	if err := syncSome(x); err != nil {
+		return 0
+	}
+	sink(x)
+	return 1
+}
+func allChecked(x int) bool {
+	for i := 0; i < x; i++ {
+		if !check(i) {
+			return false
+		}
+	}
+	return check(x)
+}
+func HelperBoolGood(x int) {
+	if !allChecked(x) {
+		return
+	}
+	sink(x)
+}
+func emit(x int) { sink(x) }
+func HelperTargetGood(x int) {
+	if !check(x) {
+		return
+	}
+	emit(x)
+}
+func HelperTargetBad(x int) {
+	if !check(x) {
+		x++
+	}
+	emit(x)
+}
+func releaseAll(h int) { release(h) }
+func HelperPairGood(x int) int {
+	h := acquire()
+	if x > 3 {
+		releaseAll(h)
+		return 1
+	}
+	releaseAll(h)
+	return 2
+}
